@@ -96,7 +96,7 @@ def gen_network(rng, sw):
         obj = {rng.choice([r["id"] for r in rxns]): 1}
     if rng.random() < sw.get("p_weighted_objective", 0.25):
         # weights other than 1 and objectives with two terms
-        obj = {k: rng.choice([2, 3, 0.5, -1]) for k in obj}
+        obj = {k: rng.choice([2, 3, 0.5, -1, 10]) for k in obj}  # 10: an optimum well above the total flux of any solution
         if rng.random() < 0.4:
             obj[rng.choice([r["id"] for r in rxns])] = rng.choice([1, 2, -1])
     if rng.random() < sw.get("p_empty_objective", 0.0):
